@@ -48,9 +48,11 @@ TRIVIA = {
     # alternatives that are prefixes of one another, over letters the start rules use too (the optimizer fuses
     # a silent choice-bodied WHITESPACE into one regex: ordered choice must survive that)
     "ws_overlap": (("WHITESPACE", "_", ("alt", (S("b"), S("ba")))),),
+    # a COMMENT whose body holds a predicate that the skip pass cannot turn into a substring search (EOI in the choice)
+    "cm_pred": (("COMMENT", "_", ("seq", (S("#"), ("star", ("grp", ("seq", (("not", ("grp", ("alt", (S("!"), R("EOI"))))), R("ANY")))))))),),
 }
 TRIVIA_SIGMA = {
-    "none": "", "ws": " ", "ws_loud": " ", "cm2": "#!", "both": " #!", "ws_choice": " \t", "cm1": "#", "both_loud": " #", "ws_overlap": "",
+    "none": "", "ws": " ", "ws_loud": " ", "cm2": "#!", "both": " #!", "ws_choice": " \t", "cm1": "#", "both_loud": " #", "ws_overlap": "", "cm_pred": "#!",
 }
 
 
@@ -96,6 +98,13 @@ def contexts():
         "prepushed": simple(lambda h: ("seq", (("pushlit", "a"), h, REST))),
         "prepushed_opt_abandon": simple(lambda h: ("seq", (("pushlit", "a"), ("opt", ab(h)), ("peekall",), REST))),
     }
+    # the hole as the WHOLE body of a rule that is called with a non-empty stack (generated templates for stack
+    # terminals are only exercised bare - outside any sequence/choice that presets the result - in this shape)
+    for m, mname in (("", "normal"), ("_", "silent")):
+        for pre, pname in (((("pushlit", "a"),), "one"), ((PUSH_AB, PUSH_AB), "two")):
+            def g(h, i, m=m, pre=pre):
+                return ((f"h{i}", m, h),), ("", ("seq", tuple(pre) + (R(f"h{i}"), REST)))
+            ctx[f"prepushed_{pname}_rule_{mname}"] = g
     for m, mname in (("_", "silent"), ("@", "atomic"), ("$", "compound"), ("!", "nonatomic")):
         for caller, cname in (("", "normal"), ("@", "atomic"), ("$", "compound")):
             def f(h, i, m=m, caller=caller):
@@ -121,9 +130,9 @@ def batch_specs(starts, base_rules, ins, kmode, family, batch=40):
 
 C01_BOUNDS = {
     # top: list of (n, modifiers, trivia configs); ctx: (hole size, trivia configs); L: max number of inputs
-    "quick": {"top": [(2, MODS, ("none", "ws", "ws_loud", "cm2", "both")), (3, ("", "@"), ("none", "ws"))],
+    "quick": {"top": [(2, MODS, ("none", "ws", "ws_loud", "cm2", "both", "ws_choice")), (3, ("", "@"), ("none", "ws"))],
               "ctx": (2, ("none", "ws")), "max_inputs": 90},
-    "thorough": {"top": [(3, MODS, ("none", "ws", "ws_loud", "cm2", "both", "ws_choice", "cm1")), (4, ("",), ("none", "ws"))],
+    "thorough": {"top": [(3, MODS, ("none", "ws", "ws_loud", "cm2", "both", "ws_choice", "cm1", "cm_pred")), (4, ("",), ("none", "ws"))],
                  "ctx": (3, ("none", "ws", "cm2", "both")), "max_inputs": 400},
 }
 
@@ -136,8 +145,11 @@ def length_for(alphabet: str, max_inputs: int) -> int:
     return L
 
 
-def c01_specs(tier: str, kmode: str = "zero", terminals=T_FULL, soi_free: bool = False, extra_sigma: str = "", max_inputs: int | None = None):
+def c01_specs(tier: str, kmode: str = "zero", terminals=T_FULL, soi_free: bool = False, extra_sigma: str = "", max_inputs: int | None = None, extra_trivia=()):
     b = C01_BOUNDS[tier]
+    if extra_trivia:
+        n0, mods0, trivs0 = b["top"][0]
+        b = dict(b, top=[(n0, mods0, tuple(trivs0) + tuple(t for t in extra_trivia if t not in trivs0))] + list(b["top"][1:]))
     mi = max_inputs or b["max_inputs"]
     env = gast.Env(HELPERS)
     out = []
@@ -175,5 +187,5 @@ def c01_rule_text():
     return ("(a) top level: every expression with <= n nodes over {\"a\",\"b\",\"ab\",^\"a\",'a'..'b',ANY,EOI,n,s, PUSH(\"a\"|\"b\"),POP,PEEK,DROP,PEEK_ALL,POP_ALL,PUSH_LITERAL(\"b\"),PEEK[0..], #tt = n, #tt = (n ~ \"b\")} "
             "with ( ) ? * + {2} {1,} {,2} {1,2} & ! ~ |, x start-rule modifier x trivia configuration; "
             "(b) contexts: every hole expression placed at top level, left/right of a sequence, as an alternative that commits and is then abandoned ((HOLE ~ \"!\") | ANY*), under ? * + {2} {1,} {,2} {1,2} with the same abandon trick, "
-            "under & ! !! , inside PUSH( ), after a pre-pushed stack entry, and as the body of a _ @ $ ! rule called from a normal, an atomic and a compound parent (32 contexts); "
+            "under & ! !! , inside PUSH( ), after a pre-pushed stack entry, as the whole body of a rule called with one or two entries on the stack, and as the body of a _ @ $ ! rule called from a normal, an atomic and a compound parent (36 contexts); "
             "x every string over {a,b,A}+trivia symbols up to the length bound; start rules are batched 40 per grammar and failing cases re-run on the isolated rule")
